@@ -230,6 +230,15 @@ def check_real(item, acc):
             finals = [float(ti[ti.realization == r].sort_values("iter").loglik.iloc[-1]) for r in sorted(set(ti.realization))]
             if abs(L1 - max(finals)) > 1e-12 * (1 + abs(L1)):
                 bad("maxL-bookkeeping", "baseline_r0=%s: returned maxL %r, final values %r" % (base, L1, finals))
+            # longer runs with the real generator: the recorded log-likelihood must not decrease (normalizeU=False)
+            acc.evaluations += 1
+            m3, u3, w3, L3 = real_fit(h, K, seed, baseline_r0=base, n_real=2, max_iter=8)
+            ti = m3.train_info
+            for r in sorted(set(ti.realization)):
+                ll = ti[ti.realization == r].sort_values("iter").loglik.tolist()
+                if any(b < a - 1e-9 * (1 + abs(a)) for a, b in zip(ll, ll[1:])):
+                    bad("loglik-decrease", "baseline_r0=%s realisation %d: log-likelihood sequence %r decreases" % (base, r, ll))
+                    break
         # histories of two fits on one object: the second result must equal a fresh object's
         other = mk(None, [(2, 5), (5, 7)] if edges != ((2, 5), (5, 7)) else [(2, 5, 7), (7, 11)], None, ())
         for first, second in ((other, h), (h, other)):
@@ -259,6 +268,10 @@ def hypergraphs(tier):
         out.append((es, None, iso))
     out.append((((2, 5), (5, 7, 11)), (2, 1), (13,)))
     out.append((((2, 5), (7, 11)), None, ()))
+    # weighted inputs with weights far from 1 (responsibilities must not depend on the weights)
+    out.append((((2, 5), (5, 7), (2, 7, 11)), (4, 1, 3), ()))
+    out.append((((2, 5, 7), (7, 11), (2, 11)), (1, 4, 2), ()))
+    out.append((((2, 5), (5, 7), (7, 11), (2, 11)), (3, 1, 4, 2), ()))
     if tier != "quick":
         out.append((((2, 5), (5, 7), (7, 11), (11, 13), (2, 13)), None, ()))
         out.append((((2, 5, 7, 11), (2, 5), (7, 11, 13)), (1, 3, 2), ()))
